@@ -58,7 +58,8 @@ def gen_string(rng):
         elif pool == "high":
             chars.append(chr(rng.randint(128, 511)))
         elif pool == "digits-after-escape":
-            chars.append(rng.choice([chr(rng.randint(0, 511)), "7", "0", "8", "x", "a", "\\", '"']))
+            chars.append(rng.choice([chr(rng.randint(0, 511)), chr(rng.choice([0, 1, 7, 8, 27, 63, 64, 127, 255, 256, 511])),
+                                     "7", "0", "8", "4", "x", "a", "\\", '"']))
         else:
             chars.append(chr(rng.randint(0, 511)))
     return "".join(chars)
@@ -176,12 +177,21 @@ def real_write(s):
 
 def check_strings(seed, n):
     rng = random.Random(seed)
-    reqs, metas = [], []
+    reqs, metas, violations = [], [], []
     for k in range(n):
         s = gen_string(rng)
         w = real_write(s)
         reqs.append("strwrite " + proto.w_str(s))
         metas.append(("write", s, proto.w_str(w)))
+        # the property at the level of one literal: what the listing prints must read back as the same string
+        from hera.lexer import Lexer as _L
+        from hera.data import Token as _T
+        back = _L(w + ")").tkn
+        if back.type != _T.STRING or back.value != s:
+            violations.append({"property": "C10", "stream": "strlit", "sig": "strlit:readback",
+                               "case": {"text": "LP_STRING({})\nSET(R1, 1)\n".format(literal(random.Random(0), s)), "string": [ord(c) for c in s]},
+                               "what": "the string {!r} is printed as {} which the lexer reads back as {!r}".format(
+                                   s, w, back.value if back.type == _T.STRING else back.type)})
         # reading: the writer's output, the generator's spellings, and damaged literals
         j = k % 3
         lit = w if j == 0 else literal(rng, s)
@@ -205,5 +215,5 @@ def check_strings(seed, n):
     for (kind, inp, real), ans in zip(metas, answers):
         if ans != real:
             disagreements.append({"stream": "strlit", "case": {"kind": kind, "input": inp}, "model": ans[:300], "impl": real[:300]})
-    return {"evaluations": len(reqs), "violations": [], "disagreements": disagreements,
+    return {"evaluations": len(reqs), "violations": violations, "disagreements": disagreements,
             "distinct": len({(m[0], m[1]) for m in metas})}
